@@ -29,3 +29,23 @@ Proof. exact movelist_perm. Qed.
 Print Assumptions C03_movelist_perm.
 
 Definition C03_nonvacuous := (toy_search_spec_a, toy_search_spec).
+
+(** * The same theorems for the real board model (heap board of Model/Board.v, search_board of
+    Model/SearchBoard.v with eval.Material, FullExploration, captures-only quiescence): every
+    representation law is discharged in Lemmas/SearchBoardInst1-4.v from the C08 (heap board), C02
+    (legal positions closed under moves) and C01 (pseudo-legal shape) theorems.  [BAt p g]: the board
+    g is well formed, abstracts to the game node p and the game invariant holds (legal position, a
+    side that has castled holds no rights); [b_mm] is the reference minimax on abstract game nodes. *)
+From Morlock.Lemmas Require Import SearchBoardInst1 SearchBoardInst SearchBoardInst5.
+Definition C03_board_full_window := @board_full_window_nott.
+Check @board_full_window_nott.
+Print Assumptions board_full_window_nott.
+Definition C03_board_pv_sound := @board_pv_sound_nott.
+Check @board_pv_sound_nott.
+Definition C03_board_search_spec := @board_search_spec_nott.
+Check @board_search_spec_nott.
+Print Assumptions board_search_spec_nott.
+(** non-vacuity on the real board: the initial position satisfies the hypotheses; K+R v K computed *)
+Check initial_board_At.
+Check kr_theorem_applied.
+Check kr_run_2.
